@@ -17,13 +17,13 @@ BOUNDS = {"quick": {"balls_per_game": "[1,3]", "max_players": "[1,3]", "start_pr
           "thorough": {"balls_per_game": "[1,3]", "max_players": "[1,3]", "start_presses": "[1,4]", "stimuli": 2, "lifecycle_point": "[0,60]"}}
 ASSUMPTIONS = ["balls are faked (playfield.add_ball stubbed, drains through the ball_drain relay event); ball devices are C04/C05",
                "end_game while the player still holds an extra ball: the extra ball is still played (statement is silent; not flagged)",
-               "slam tilt not exercised in the quick tier"]
+               "slam tilt = what the tilt mode does to the game (game.slam_tilted = True, then game.end_ball()); the tilt mode itself is part of C10's machine"]
 BUDGET = {"quick": 100, "thorough": 600}
 
 LIFE = ["game_will_start", "game_starting", "game_started", "player_turn_will_start", "player_turn_starting", "player_turn_started",
         "ball_will_start", "ball_starting", "ball_started", "ball_will_end", "ball_ending", "ball_ended",
         "player_turn_will_end", "player_turn_ending", "player_turn_ended", "game_will_end", "game_ending", "game_ended"]
-STIM = ["add_player", "drain", "extra_ball", "end_ball", "end_game", "hold_queue", "add_ball_in_play"]
+STIM = ["add_player", "drain", "extra_ball", "end_ball", "end_game", "hold_queue", "add_ball_in_play", "slam_tilt"]
 
 
 class SymTemplate:
@@ -107,6 +107,14 @@ def _body(S, t, part, fired_log):
             t.loop.call_later(hold, queue.clear)
         elif k == "add_ball_in_play":
             g.balls_in_play += 2
+        elif k == "slam_tilt":
+            # the game's side of the tilt mode's slam_tilt(): flag the game, then end the current ball
+            g.slam_tilted = True
+            g.end_ball()
+            st["stream_pos"] = len(stream)
+            end_requested[0] = True
+            if at_event in ("ball_will_start", "ball_starting", "ball_started"):
+                pending_end[0] = sum(1 for x in stream if x[0] == "ball_ended")
 
     def hold_pending():
         return False
@@ -173,6 +181,18 @@ def _body(S, t, part, fired_log):
         raise Violation("balls-in-play-within-bounds", "Game.balls_in_play", "balls_in_play out of [0, balls known]: %s" % bip_bad[:3])
     if m.game is not None or not ended:
         raise Violation("game-ends", "Game._run", "game still running after all balls were drained 60 times; stream tail %s" % stream[-6:])
+    for st in stim:
+        if st["kind"] == "slam_tilt" and st["done"] and "stream_pos" in st:
+            k = st["stream_pos"]            # number of lifecycle events posted up to and including the one that slam-tilted
+            before = [x[0] for x in stream[:k]]
+            after = [x[0] for x in stream[k:]]
+            in_turn = before.count("player_turn_will_start") > before.count("player_turn_ended")
+            in_ball = before.count("ball_will_start") > before.count("ball_ended")
+            if in_turn and "player_turn_will_start" in after:
+                raise Violation("slam-tilt-ends-the-game", "Game._run", "slam tilt during the turn of player %s (of %d) but another turn started afterwards: %s" % (
+                    [x[1] for x in stream[:k] if x[0] == "player_turn_will_start"][-1], len(added), after[:8]))
+            if in_ball and "ball_will_start" in after:
+                raise Violation("slam-tilt-ends-the-game", "Game._run", "slam tilt during a ball but another ball started afterwards: %s" % after[:8])
     # ---- parse the stream against the statement's grammar -----------------------------------------
     names = [x[0] for x in stream]
     pos = [0]
@@ -236,7 +256,7 @@ def _body(S, t, part, fired_log):
     expect("game_ended")
     if pos[0] != len(stream):
         raise Violation("lifecycle-events-nest-in-order", "Game._end_game", "events after game_ended: %s" % names[pos[0]:pos[0] + 5])
-    ended_early = any(st["kind"] == "end_game" and st["done"] for st in stim)
+    ended_early = any(st["kind"] in ("end_game", "slam_tilt") and st["done"] for st in stim)
     full = n_players_final * bpg
     if not ended_early and turns != full:
         raise Violation("each-player-one-turn-per-ball-number", "Game._run", "%d turns for %d player(s) x %s balls (no end_game requested)" % (turns, n_players_final, bpg))
@@ -257,6 +277,7 @@ def scenarios(tier):
         parts = [dict(stimuli=1, kinds=[k], max_presses=3, max_point=40) for k in STIM]
         parts.append(dict(stimuli=0, kinds=[], max_presses=3, max_point=0))
         parts.append(dict(stimuli=1, kinds=["add_player"], max_presses=1, min_point=9, max_point=17))     # the turn-change window after ball 1
+        parts.append(dict(stimuli=1, kinds=["slam_tilt"], max_presses=3, min_point=5, max_point=14))      # slam tilt in the first player's first turn
     else:
         parts = [dict(stimuli=2, kinds=[a, b], max_presses=3, max_point=50) for a in STIM for b in STIM]
     pb = 80 if tier == "quick" else 500
